@@ -5,7 +5,7 @@ import warnings
 import numpy as np
 
 from common import (Ctx, LeanDriver, Property, bool_s, dyadic, err_kind, list_s, listlist_s, run_property)
-from msd_trace import Tracer, tagged_potential_array
+from msd_trace import Tracer, expected_ids, tagged_potential_array
 
 
 # ----------------------------------------------------------------------------- traced runs
@@ -24,7 +24,8 @@ def trace_case(rng):
     chunks, left = [], nb
     while left:
         k = rng.randint(1, left); chunks.append(k); left -= k
-    return dict(n=n, ncfg=ncfg, ens=ens, spec=spec, nb=nb, chunks=chunks, pot=rng.choice(["array", "frozen"]) if ens else "array",
+    return dict(recip=rng.random() < 0.4, algorithm=rng.choice(["fourier", "fourier", "realspace"]),
+                n=n, ncfg=ncfg, ens=ens, spec=spec, nb=nb, chunks=chunks, pot=rng.choice(["array", "frozen"]) if ens else "array",
                 seeds=rng.sample(range(1, 10 ** 6), ncfg))
 
 
@@ -61,18 +62,23 @@ def run_traced(c, lazy):
     ids = [1000 + m for m in range(c["nb"])]
     for m, i in enumerate(ids):
         arr[m] = tr.code_of((i,))
-    w = abtem.waves.Waves(arr, energy=100e3, ensemble_axes_metadata=[OrdinalAxis(values=tuple(range(c["nb"])))], **kw)
+    w = abtem.waves.Waves(arr, energy=100e3, ensemble_axes_metadata=[OrdinalAxis(values=tuple(range(c["nb"])))],
+                          reciprocal_space=bool(c.get("recip")), **kw)
+    akw = {}
+    if c.get("algorithm") == "realspace":
+        from abtem.multislice import RealSpaceMultislice
+        akw["algorithm"] = RealSpaceMultislice()
     chunks = None
     try:
         with tr.patched(), warnings.catch_warnings():
             warnings.simplefilter("ignore")
             if lazy:
                 w = w.ensure_lazy(chunks=(tuple(c["chunks"]), -1, -1))
-                r = w.multislice(pot, detectors=WavesDetector())
+                r = w.multislice(pot, detectors=WavesDetector(), **akw)
                 chunks = [list(x) for x in r.array.chunks]
                 out = r.compute(progress_bar=False).array
             else:
-                out = w.multislice(pot, detectors=WavesDetector()).array
+                out = w.multislice(pot, detectors=WavesDetector(), **akw).array
         ens_shape, hs = tr.decode(out)
         nb = c["nb"]
         lead = int(np.prod(ens_shape[:-1])) if len(ens_shape) > 1 else 1
@@ -111,7 +117,9 @@ def gen_pipeline(ctx: Ctx, focus=False):
     kind = "build" if (not focus and rng.random() < 0.15) else "multislice"
     if kind == "build":
         dets, post = ["waves"], rng.choice(["none", "ctf", "ctf+intensity"])
-    return dict(kind=kind, post=post, nslices=n, atoms=atoms, pot=pot, spec=spec, builder=builder, scan=scan, dets=dets, gpts=rng.choice([8, 12]),
+    entry = "builder" if kind == "build" else rng.choice(["builder", "builder", "real", "reciprocal"])
+    algorithm = rng.choice(["default", "default", "fourier-conjugate", "fourier-transpose", "fourier-order2", "realspace"])
+    return dict(algorithm=algorithm, entry=entry, kind=kind, post=post, nslices=n, atoms=atoms, pot=pot, spec=spec, builder=builder, scan=scan, dets=dets, gpts=rng.choice([8, 12]),
                 ncfg=rng.randint(1, 3), seed=rng.randint(1, 10 ** 6), max_batch=rng.choice(["auto", 1, 2, 3]),
                 scheduler=rng.choice(["synchronous", "synchronous", "threads"]),
                 points=[[dyadic(rng, 0, 3.5, 2), dyadic(rng, 0, 3.5, 2)] for _ in range(rng.randint(1, 3))])
@@ -150,20 +158,39 @@ def _build_pipeline(c):
     return builder, pot, dets, scan
 
 
+def _algorithm_kw(c):
+    """the `algorithm=` keyword of the multislice call (a non-default value must reach every lazy block)"""
+    from abtem.multislice import FourierMultislice, RealSpaceMultislice
+
+    a = c.get("algorithm", "default")
+    return {} if a == "default" else dict(algorithm={
+        "fourier-conjugate": FourierMultislice(conjugate=True), "fourier-transpose": FourierMultislice(transpose=True),
+        "fourier-order2": FourierMultislice(order=2), "realspace": RealSpaceMultislice(order=1, max_terms=30)}[a])
+
+
 def _run_pipeline(c, lazy):
     import abtem
     import dask
 
     builder, pot, dets, scan = _build_pipeline(c)
+    akw = _algorithm_kw(c)
     with warnings.catch_warnings():
         warnings.simplefilter("ignore")
         if c.get("kind", "multislice") == "build":  # wave building only (Probe/PlaneWave.build), lazy vs eager
             r = builder.build(lazy=lazy, max_batch=c["max_batch"]) if c["builder"] == "plane" else \
                 builder.build(scan=scan, lazy=lazy, max_batch=c["max_batch"])
+        elif c.get("entry", "builder") != "builder":
+            # the incident waves are handed to Waves.multislice as an object, in real or reciprocal space
+            w = builder.build(lazy=False) if c["builder"] == "plane" else builder.build(scan=scan, lazy=False)
+            if c["entry"] == "reciprocal":
+                w = w.ensure_reciprocal_space()
+            if lazy:
+                w = w.ensure_lazy()
+            r = w.multislice(pot, detectors=dets, **akw)
         elif c["builder"] == "plane":
-            r = builder.multislice(pot, detectors=dets, lazy=lazy, max_batch=c["max_batch"])
+            r = builder.multislice(pot, detectors=dets, lazy=lazy, max_batch=c["max_batch"], **akw)
         else:
-            r = builder.multislice(pot, scan=scan, detectors=dets, lazy=lazy, max_batch=c["max_batch"])
+            r = builder.multislice(pot, scan=scan, detectors=dets, lazy=lazy, max_batch=c["max_batch"], **akw)
         post = c.get("post", "none")
         if post != "none":  # CTF application (and intensity) on the exit / built waves
             r = r.apply_ctf(abtem.CTF(defocus=40.0, Cs=-2e4, semiangle_cutoff=25), max_batch=c["max_batch"])
@@ -228,12 +255,13 @@ class C01(Property):
         def add(name, line, impl, case):
             lines.append(line); impls.append(impl); names.append(name); cases.append(case)
 
-        for _ in range(ctx.n(70, 900)):
+        for _ in range(ctx.n(70, 600)):
             c = trace_case(rng)
             for lazy in (False, True):
                 pot, configs, ids, text, chunks = run_traced(c, lazy)
+                configs = expected_ids(configs, c["algorithm"])
                 planes = list_s(int(p) for p in pot.exit_planes)
-                tail = f"{list_s(ids)} {bool_s(c['ens'])} {planes} {pot.num_slices} {listlist_s(configs)}"
+                tail = f"{list_s(ids)} {bool_s(c['ens'])} {planes} {pot.num_slices} {listlist_s(configs)} {bool_s(c['recip'])}"
                 if lazy:
                     add("Waves.multislice(lazy, traced)", f"lazy {list_s(c['chunks'])} {tail}", text, c)
                     # block structure of the real lazy result: one configuration per block, exit planes unchunked,
@@ -247,7 +275,7 @@ class C01(Property):
                 else:
                     add("Waves.multislice(eager, traced)", f"eager {tail}", text, c)
                 ctx.traces += 1
-            ctx.count(f"trace:{c['pot']}:ncfg={c['ncfg']}:nb={c['nb']}:blocks={len(c['chunks'])}")
+            ctx.count(f"trace:{c['pot']}:ncfg={c['ncfg']}:nb={c['nb']}:blocks={len(c['chunks'])}:recip={c['recip']}:{c['algorithm']}")
         for a in range(0, 3):
             for b in range(0, 5):
                 for d in range(0, 4):
@@ -263,7 +291,7 @@ class C01(Property):
                 continue
             ctx.agree(name, {"request": line, "case": case}, out, impl)
             ctx.case(case, nontrivial=True)
-        bad = drv.query(["lazy 1 1 T 1 1", "eager x T 1 1 1", "dims 1 2", ""])
+        bad = drv.query(["lazy 1 1 T 1 1", "eager x T 1 1 1 F", "dims 1 2", ""])
         ctx.agree("driver rejects malformed requests", bad, bad, ["bad-op"] * 4)
 
     @staticmethod
@@ -299,17 +327,17 @@ class C01(Property):
         for i, (a, b) in enumerate(zip(ve, vl)):
             ok, why = _close(b.array, a.array)
             if not ok:
-                ctx.violation(f"lazy-eager-values-differ:{c['dets'][i]}:{c['pot']}", c, {"output": i, "what": why, "case": tag})
+                ctx.violation(f"lazy-eager-values-differ:{c['dets'][i]}:{c['pot']}:algorithm={c.get('algorithm', 'default')}", c, {"output": i, "what": why, "case": tag})
                 return
             if a.metadata != b.metadata:
                 ctx.violation("lazy-eager-metadata-differ", c, {"eager": repr(a.metadata)[:300], "lazy": repr(b.metadata)[:300]})
                 return
 
     def conformance(self, ctx: Ctx):
-        for i in range(ctx.n(60, 800)):
+        for i in range(ctx.n(60, 500)):
             c = gen_pipeline(ctx, focus=(i % 4 == 3))
             self.oracle(ctx, c)
-            ctx.count(f"numeric:{c['kind']}:{c['pot']}:{c['builder']}:scan={c['scan']}:batch={c['max_batch']}:{c['scheduler']}:post={c['post']}")
+            ctx.count(f"numeric:{c['kind']}:{c['pot']}:{c['builder']}:scan={c['scan']}:batch={c['max_batch']}:{c['scheduler']}:post={c['post']}:entry={c['entry']}:{c['algorithm']}")
             ctx.case(c, nontrivial=True)
 
     def replay(self, ctx: Ctx, case):
